@@ -251,6 +251,53 @@ def main():
                             h.violation(f"roundtrip:{fmt}:{mode}", f"{tag}: tile written as {bmode} reads back with mode {r_none.mode.name}", input={"format": fmt, "mode": mode})
                         elif not same(got, want):
                             h.violation(f"roundtrip:{fmt}:{mode}", f"{tag}: tile reads back with different pixels", input={"format": fmt, "mode": mode})
+        # ---- the read-modify-write interface: two sources paint two rectangles of a tile that does not exist yet, through
+        # `update_image(masked_mode=<the source's mode>, default="masked")` as the tilers do; afterwards exactly the painted pixels
+        # are defined, with the sources' values, in every lossless format able to hold the mode
+        for fmt, modes in list(CAPABLE.items()):
+            for mode in modes:
+                if mode in ("U8", "I16", "I32"):
+                    continue            # zero means undefined there: covered by the buffer model above
+                k += 1
+                pio = PyramidIO(os.path.join(root, f"u{k}"), default_format=fmt)
+                pos = Pos(1, rng.randint(0, 1), rng.randint(0, 1))
+                bmode = "RGBA" if mode == "RGB" else mode
+                im_mode = getattr(ImageMode, mode)
+                rects = [(rng.randint(0, 100), rng.randint(0, 100), rng.randint(20, 120), rng.randint(20, 120)) for _ in range(2)]
+                srcs = [rand_img(rng, mode, hh_, ww_, 0.0).astype(MODES[mode][3]) for (_y, _x, hh_, ww_) in rects]
+                expect_def = np.zeros((256, 256), dtype=bool)
+                tag = f"update_image x2 / {fmt}/{mode} rectangles {rects}"
+                try:
+                    with warnings.catch_warnings():
+                        warnings.simplefilter("ignore")
+                        for (y0, x0, hh_, ww_), src in zip(rects, srcs):
+                            img = Image.from_array(src.copy())
+                            with pio.update_image(pos, masked_mode=img.mode, default="masked") as basis:
+                                img.update_into_maskable_buffer(basis, slice(0, hh_), slice(0, ww_), slice(y0, y0 + hh_), slice(x0, x0 + ww_))
+                            expect_def[y0:y0 + hh_, x0:x0 + ww_] = True
+                        back = pio.read_image(pos, default="none")
+                except Exception as e:
+                    h.violation(f"update:{mode}", f"{tag}: raised {type(e).__name__}: {e}", input={"format": fmt, "mode": mode, "rects": rects})
+                    h.case(("update", fmt, mode))
+                    continue
+                h.case(("update", fmt, mode, tuple(rects)))
+                h.count("update", f"{fmt}/{mode}")
+                if back is None:
+                    h.violation(f"update:{mode}", f"{tag}: no tile was stored", input={"format": fmt, "mode": mode, "rects": rects})
+                    continue
+                got = back.asarray()
+                got_def = ~undefined_mask(bmode, got) if back.mode.name == bmode else None
+                if back.mode.name != bmode:
+                    h.violation(f"update:{mode}", f"{tag}: the stored tile reads back with mode {back.mode.name}, the buffer's mode is {bmode} (undefined pixels cannot be told apart any more)", input={"format": fmt, "mode": mode, "rects": rects})
+                elif got_def is None or not np.array_equal(got_def, expect_def):
+                    n_bad = int((got_def != expect_def).sum()) if got_def is not None else -1
+                    h.violation(f"update:{mode}", f"{tag}: {n_bad} pixels are defined / undefined contrary to the two painted rectangles", input={"format": fmt, "mode": mode, "rects": rects})
+                else:
+                    (y0, x0, hh_, ww_), src = rects[1], srcs[1]
+                    sub = got[y0:y0 + hh_, x0:x0 + ww_]
+                    want = src if mode != "RGB" else np.concatenate([src, np.full(src.shape[:2] + (1,), 255, dtype=src.dtype)], axis=2)
+                    if not same(sub, want):
+                        h.violation(f"update:{mode}", f"{tag}: the second rectangle does not hold the second source's pixels", input={"format": fmt, "mode": mode, "rects": rects})
     finally:
         shutil.rmtree(root, ignore_errors=True)
     try:
